@@ -607,6 +607,23 @@ func (g *igen) resolve(fi int, t *iTexpr, fuel int) (kind int, enumRef string, e
 	return 5, "", 0
 }
 
+var longLens = []int{1, 63, 64, 65, 128, 300}
+
+// identifier of one of the boundary lengths around the 64-byte mark
+func longIdent(r *rng) string {
+	n := longLens[r.intn(len(longLens))]
+	b := make([]byte, n)
+	c := identAlpha[10+r.intn(53)]
+	for i := range b {
+		b[i] = c
+	}
+	if n > 1 {
+		b[n-1] = identAlpha[10+r.intn(53)]
+		b[r.intn(n)] = identAlpha[10+r.intn(53)]
+	}
+	return string(b)
+}
+
 var doubleTable = []struct {
 	T string
 	B uint64
@@ -699,7 +716,7 @@ func (g *igen) genAnnos(name string, root bool) []iAnno {
 		for i := 0; i < n; i++ {
 			switch x := r.intn(100); {
 			case x < 45:
-				v := []string{name + "_k", "K" + name, name, "alias", "a.b", "x-y", "ключ", "", "Z"}[r.intn(9)]
+				v := []string{name + "_k", "K" + name, name, "alias", "a.b", "x-y", "ключ", "", "Z", longIdent(r)}[r.intn(10)]
 				add(iAnno{Key: "api.key", Vals: []string{v}})
 			case x < 70:
 				v := []string{name + "_j", "json" + name, "j"}[r.intn(3)]
@@ -753,6 +770,9 @@ func (g *igen) genFields(fi int, n int, kind int, root bool, negOK bool) []*iFie
 		}
 		used[id] = true
 		name := fieldNamePool[r.intn(len(fieldNamePool))]
+		if r.chance(4) {
+			name = longIdent(r)
+		}
 		for usedN[name] {
 			name = g.fresh("f")
 		}
@@ -974,12 +994,36 @@ func genProgram(r *rng) (*igen, iOpts) {
 			fn.Ret = &iTexpr{Tag: 4, Name: rs.Name}
 		}
 	}
+	// two different entities with the same unqualified name in two files of the include graph (also across a diamond:
+	// main -> a -> b and main -> b)
+	collided := r.chance(40)
+	if collided {
+		// functions inherited from a service of an included file are compiled with the cache of the main file (finding 1408):
+		// name collisions are generated without cross-file inheritance here, the witness of 1408 is check 1408
+		for _, f := range g.prog {
+			for _, sv := range f.Svcs {
+				sv.Extends = ""
+			}
+		}
+		for _, inc := range mainF.Includes {
+			if r.chance(60) {
+				g.collide(0, inc.Idx)
+			}
+		}
+		for fi := 1; fi < len(g.prog); fi++ {
+			for _, inc := range g.prog[fi].Includes {
+				if r.chance(50) {
+					g.collide(fi, inc.Idx)
+				}
+			}
+		}
+	}
 	// service inheritance
 	if len(mainF.Svcs) > 0 {
 		last := mainF.Svcs[len(mainF.Svcs)-1]
 		done := false
 		for _, inc := range mainF.Includes {
-			if f := g.prog[inc.Idx]; len(f.Svcs) > 0 && r.chance(60) && !done {
+			if f := g.prog[inc.Idx]; len(f.Svcs) > 0 && r.chance(60) && !done && !collided {
 				last.Extends = inc.Alias + "." + f.Svcs[0].Name
 				done = true
 			}
@@ -999,6 +1043,204 @@ func genProgram(r *rng) (*igen, iOpts) {
 	return g, o
 }
 
+// ---- same unqualified name in two files of one include graph ---------------------------------------------------------
+
+func (g *igen) eachTexpr(f *iFile, fn func(t *iTexpr)) {
+	var walk func(t *iTexpr)
+	walk = func(t *iTexpr) {
+		if t == nil {
+			return
+		}
+		fn(t)
+		walk(t.K)
+		walk(t.V)
+	}
+	for i := range f.Typedefs {
+		walk(f.Typedefs[i].T)
+	}
+	for _, s := range f.Structs {
+		for _, fd := range s.Fields {
+			walk(fd.T)
+		}
+	}
+	for _, sv := range f.Svcs {
+		for _, fn := range sv.Funcs {
+			walk(fn.Ret)
+			for _, a := range fn.Args {
+				walk(a.T)
+			}
+			for _, a := range fn.Throws {
+				walk(a.T)
+			}
+		}
+	}
+}
+
+// rename entity old -> nw of file fi: bare references inside fi, qualified ones in the files that include fi
+func (g *igen) rename(fi int, old, nw string) {
+	f := g.prog[fi]
+	for _, s := range f.Structs {
+		if s.Name == old {
+			s.Name = nw
+		}
+	}
+	for _, e := range f.Enums {
+		if e.Name == old {
+			e.Name = nw
+		}
+	}
+	for i := range f.Typedefs {
+		if f.Typedefs[i].N == old {
+			f.Typedefs[i].N = nw
+		}
+	}
+	for gi, h := range g.prog {
+		prefix := ""
+		if gi != fi {
+			prefix = "\x00"
+			for _, inc := range h.Includes {
+				if inc.Idx == fi {
+					prefix = inc.Alias + "."
+				}
+			}
+			if prefix == "\x00" {
+				continue
+			}
+		}
+		g.eachTexpr(h, func(t *iTexpr) {
+			if t.Tag == 4 && t.Name == prefix+old {
+				t.Name = prefix + nw
+			}
+		})
+		fixC := func(c *iConst) {
+			if c.Tag == 4 && strings.HasPrefix(c.S, prefix+old+".") {
+				c.S = prefix + nw + c.S[len(prefix+old):]
+			}
+		}
+		for _, s := range h.Structs {
+			for _, fd := range s.Fields {
+				fixC(&fd.Def)
+			}
+		}
+		for i := range h.Consts {
+			fixC(&h.Consts[i].V)
+		}
+	}
+}
+
+// give file pi (which includes di) an entity with the name of a struct N of di, make a struct H of di refer to its own N by the
+// bare name, and make both `N` (pi's) and `<alias>.H` reachable side by side from every function of the main file
+func (g *igen) collide(pi, di int) {
+	r := g.r
+	P, D := g.prog[pi], g.prog[di]
+	alias := ""
+	for _, inc := range P.Includes {
+		if inc.Idx == di {
+			alias = inc.Alias
+		}
+	}
+	if alias == "" || len(D.Structs) == 0 || (g.hasB && di == g.baseIx) {
+		return
+	}
+	N := D.Structs[r.intn(len(D.Structs))]
+	H := D.Structs[r.intn(len(D.Structs))]
+	for _, x := range append(append([]*iStruct{}, P.Structs...), D.Structs...) {
+		_ = x
+	}
+	// entity of P that takes N's name
+	var olds []string
+	switch x := r.intn(10); {
+	case x < 6:
+		for _, s := range P.Structs {
+			if !strings.HasPrefix(s.Name, "Root") {
+				olds = append(olds, s.Name)
+			}
+		}
+	case x < 8:
+		for _, e := range P.Enums {
+			olds = append(olds, e.Name)
+		}
+	default:
+		for _, td := range P.Typedefs {
+			olds = append(olds, td.N)
+		}
+	}
+	if len(olds) == 0 {
+		for _, s := range P.Structs {
+			if !strings.HasPrefix(s.Name, "Root") {
+				olds = append(olds, s.Name)
+			}
+		}
+	}
+	if len(olds) == 0 {
+		return
+	}
+	for _, s := range P.Structs {
+		if s.Name == N.Name {
+			return // already collides
+		}
+	}
+	for _, e := range P.Enums {
+		if e.Name == N.Name {
+			return
+		}
+	}
+	for _, td := range P.Typedefs {
+		if td.N == N.Name {
+			return
+		}
+	}
+	g.rename(pi, olds[r.intn(len(olds))], N.Name)
+	H.Fields = append(H.Fields, &iField{ID: freeID(H.Fields, 20+r.intn(5)), Name: g.fresh("inner"), T: &iTexpr{Tag: 4, Name: N.Name}, Req: 2})
+	mix := &iStruct{Name: g.fresh("Mix")}
+	own := &iField{ID: 1, Name: "own", T: &iTexpr{Tag: 4, Name: N.Name}, Req: 2}
+	dep := &iField{ID: 2, Name: "dep", T: &iTexpr{Tag: 4, Name: alias + "." + H.Name}, Req: 2}
+	if r.bool() {
+		mix.Fields = []*iField{own, dep}
+	} else {
+		mix.Fields = []*iField{dep, own}
+	}
+	P.Structs = append(P.Structs, mix)
+	// reachability from the main file
+	ref := mix.Name
+	if pi != 0 {
+		ma := ""
+		for _, inc := range g.prog[0].Includes {
+			if inc.Idx == pi {
+				ma = inc.Alias
+			}
+		}
+		if ma == "" {
+			return
+		}
+		ref = ma + "." + mix.Name
+	}
+	M := g.prog[0]
+	touched := map[string]bool{}
+	for _, sv := range M.Svcs {
+		for _, fn := range sv.Funcs {
+			for _, t := range []*iTexpr{fn.Args[0].T, fn.Ret} {
+				if t.Tag != 4 || strings.Contains(t.Name, ".") || touched[t.Name] {
+					continue
+				}
+				for _, st := range M.Structs {
+					if st.Name == t.Name && st != mix {
+						touched[t.Name] = true
+						st.Fields = append(st.Fields, &iField{ID: freeID(st.Fields, 30+r.intn(5)), Name: g.fresh("mix"), T: &iTexpr{Tag: 4, Name: ref}, Req: 2})
+					}
+				}
+			}
+		}
+	}
+	if len(touched) == 0 {
+		for _, sv := range M.Svcs {
+			for _, fn := range sv.Funcs {
+				fn.Args[0].T = &iTexpr{Tag: 4, Name: ref}
+			}
+		}
+	}
+}
+
 func freeID(fs []*iField, id int) int {
 	for {
 		used := false
@@ -1014,6 +1256,30 @@ func freeID(fs []*iField, id int) int {
 	}
 }
 
+// witness of finding 1408: main and a.thrift both declare struct N; `service Main extends a.Base`; the inherited function's bare N
+func c14Inherit1408(r *rng) {
+	g := &igen{r: r}
+	n := g.fresh("Item")
+	mk := func(tag string) *iStruct {
+		st := &iStruct{Name: n}
+		for i, k := 0, 1+r.intn(3); i < k; i++ {
+			st.Fields = append(st.Fields, &iField{ID: 1 + i + r.intn(2)*10, Name: g.fresh(tag), T: &iTexpr{Tag: 0, Base: r.intn(9)}, Req: r.intn(3)})
+		}
+		return st
+	}
+	a := &iFile{Path: "/x/a.thrift", Structs: []*iStruct{mk("dep")}}
+	a.Svcs = []*iSvc{{Name: "Base", Funcs: []*iFunc{{Name: "Ping", Ret: &iTexpr{Tag: 0, Base: 9}, Args: []*iField{{ID: 1, Name: "req", T: &iTexpr{Tag: 4, Name: n}}}}}}}
+	m := &iFile{Path: "/x/main.thrift", Structs: []*iStruct{mk("own")}}
+	m.Includes = append(m.Includes, struct {
+		Alias string
+		Idx   int
+	}{"a", 1})
+	m.Svcs = []*iSvc{{Name: "Main", Extends: "a.Base", Funcs: []*iFunc{{Name: "Get", Ret: &iTexpr{Tag: 0, Base: 9}, Args: []*iField{{ID: 1, Name: "req", T: &iTexpr{Tag: 4, Name: n}}}}}}}
+	g.prog = []*iFile{m, a}
+	o := iOpts{MapWay: r.intn(3), FnMode: r.intn(2), SvcMode: r.intn(3), OptBitmap: r.bool()}
+	c14RunIDL(r, g.prog, o, 1408, false)
+}
+
 const c14Depth = 3
 
 var debugC14 = os.Getenv("C14_DEBUG") != ""
@@ -1021,7 +1287,10 @@ var debugOut = os.Stderr
 
 func c14IDL(r *rng) {
 	g, o := genProgram(r)
-	prog := g.prog
+	c14RunIDL(r, g.prog, o, 1405, true)
+}
+
+func c14RunIDL(r *rng, prog []*iFile, o iOpts, checkID int, sweeps bool) {
 	includes := map[string]string{}
 	for i, f := range prog {
 		if i > 0 {
@@ -1060,9 +1329,9 @@ func c14IDL(r *rng) {
 		t.i(0)
 		dumpService(&t, svc, c14Depth, &seen)
 	}
-	out.emit(1405, t...)
+	out.emit(checkID, t...)
 	// lookup sweeps on (a sample of) the struct descriptors reached by the dump
-	if len(seen) > 0 {
+	if sweeps && len(seen) > 0 {
 		done := map[*thrift.StructDescriptor]bool{}
 		for k := 0; k < 2 && k < len(seen); k++ {
 			d := seen[r.intn(len(seen))]
